@@ -10,6 +10,8 @@ from .fam_conc import ConcFamily
 
 
 class HealthFamily(Family):
+    race = True
+    race_cases = 40
     prop = "C18"
     harness_mode = ["health"]
     driver_args = ["health"]
